@@ -233,12 +233,14 @@ mutual
             | .off => [.moveq (.bool false) (.reg .power)]
             | .set => []) ++
            [.wait, .moveq (.operand .all) (.reg .operand), opcodeOf k])
-    | .setDefault => ins [.wait, .moveq (.operand .default) (.reg .operand), .color]
-    | .action k ops =>
+    | .setDefault w =>
+      ins ((if w then [.wait] else []) ++ [.moveq (.operand .default) (.reg .operand), .color])
+    | .action k w ops =>
+      -- inside a matrix block (`w = false`) a command has no `WAIT` of its own
       ins (match k with
            | .on => [.moveq (.bool true) (.reg .power)]
            | .off => [.moveq (.bool false) (.reg .power)]
-           | .set => []) ++ ins [.wait] ++ genOperands k ops
+           | .set => []) ++ ins (if w then [.wait] else []) ++ genOperands k ops
     | .get name => ins (genRv name (.to result) ++ [.move (.reg .result) (.reg .name), .getColor])
     | .wait => ins [.wait]
     | .timeAt ps =>
